@@ -69,6 +69,7 @@ type Spec struct {
 	Assume    []string            `json:"assumptions"`
 	Encoded   []string            `json:"encoded"` // documentation: functions under test
 	Stubs     map[string]string   `json:"stubs"`   // extra contract stubs: function -> noop|real
+	JSONStub  bool                `json:"json_stub"` // replace encoding/json by the contract stub
 }
 
 // defaultStubs are applied to every check (each one that fires is listed in the evidence).
@@ -583,6 +584,7 @@ func cmdCheck(args []string) int {
 	}
 	w := interp.Prepare(ld.prog, ld.sizes, modulePath)
 	w.Trace = *trace
+	w.JSONStub = spec.JSONStub
 	w.Stubs = map[string]string{}
 	for k, v := range defaultStubs {
 		w.Stubs[k] = v
